@@ -130,19 +130,14 @@ func checkC09(c *an.Ctx) {
 		}
 	}
 	// (c) buildTask
-	bt := p.Func("internal/config", "", "buildTask")
-	if bt == nil {
-		c.Und("C09.1", "config.buildTask", token.NoPos, "buildTask not found")
+	tb := resolveTaskBuild(p)
+	if tb == nil {
+		c.Und("C09.1", "config.buildTask", token.NoPos, "the function that builds a task.Task from a taskDefinition was not found")
 	} else {
-		var tasks []ssa.Value
-		an.EachInstr(bt, func(in ssa.Instruction) {
-			if a, ok := in.(*ssa.Alloc); ok && an.TypeIs(a.Type(), "pkg/task", "Task") {
-				tasks = append(tasks, a)
-			}
-		})
+		bt := tb.root
 		seenFile, seenPlain := false, false
-		for _, t := range tasks {
-			for _, st := range an.StoresToField(bt, t, "Env") {
+		{
+			for _, st := range tb.storesTo("Env") {
 				for _, ch := range chainCfg(p).Chains(st.Val) {
 					var labels []string
 					for _, l := range ch {
@@ -413,51 +408,118 @@ func executeEnv(c *an.Ctx, rule1, rule2 string) {
 		}
 		c.Check(okCE, rule2, an.Short(ce)+":one-per-key", ce.Pos(), "ConvertEnv emits one entry per map key", "ConvertEnv does not range over its map")
 	}
-	// layers of the map
-	mm, ok := an.Resolve(m).(*ssa.MakeMap)
-	if !ok || mm.Parent() != hf {
+	// layers of the map: the map is made during this Execute call (by Execute or a
+	// helper of the package under it), and written first from the process
+	// environment, then from the job's env; the writes may sit in helpers
+	reach := p.Reach([]*ssa.Function{ex}, func(e an.CallEdge) bool { return e.Kind != an.EdgeGo && an.Outer(e.Callee).Pkg == ex.Pkg })
+	mapOf := func(v ssa.Value) *ssa.MakeMap {
+		if mk, ok := an.Resolve(v).(*ssa.MakeMap); ok {
+			return mk
+		}
+		var found *ssa.MakeMap
+		for _, src := range p.DeepSources(v, 4, true) {
+			mk, ok := an.Resolve(src).(*ssa.MakeMap)
+			if !ok || (found != nil && found != mk) {
+				return nil
+			}
+			found = mk
+		}
+		return found
+	}
+	mm := mapOf(m)
+	_ = hf
+	if mm == nil {
 		c.Bad(rule1, an.Short(ex)+":env-map", site.Pos(), "the environment map is not allocated by this Execute call (%s): entries of one job survive into the next, so a name one job defines stays defined for later jobs", an.Prov(m))
 		return
 	}
+	if _, under := reach[mm.Parent()]; !under {
+		c.Bad(rule1, an.Short(ex)+":env-map", site.Pos(), "the environment map is not allocated by this Execute call (made in %s): entries of one job survive into the next, so a name one job defines stays defined for later jobs", an.Short(mm.Parent()))
+		return
+	}
+	// anchor: where, in function f, the work of instruction `in` of a function under f happens
+	type anchor struct {
+		entry, exit *ssa.BasicBlock
+		idx         int
+		call        *ssa.Call
+	}
 	type layer struct {
+		fn    *ssa.Function
 		loop  *an.Loop
+		mu    *ssa.MapUpdate
 		label string
 	}
-	var layers []layer
-	for _, r := range *mm.Referrers() {
-		mu, ok := r.(*ssa.MapUpdate)
-		if !ok {
-			continue
-		}
-		var in *an.Loop
-		for _, l := range an.Loops(hf) {
-			if l.Blocks[mu.Block()] && (in == nil || len(l.Blocks) < len(in.Blocks)) {
-				in = l
-			}
-		}
-		if in == nil {
-			layers = append(layers, layer{nil, "direct:" + an.Prov(mu.Key)})
-			continue
-		}
-		label := "?" + an.Prov(in.RangeOperand())
-		for _, src := range an.Sources(in.RangeOperand()) {
+	// labelOf follows a ranged-over value to where it was read from (through helper parameters)
+	var labelOf func(v ssa.Value, depth int) string
+	labelOf = func(v ssa.Value, depth int) string {
+		label := ""
+		for _, src := range an.Sources(v) {
 			s := an.FieldProv(src)
 			switch {
 			case strings.Contains(s, "DefaultExecutor.env"):
-				label = "process-env"
+				return "process-env"
 			case strings.Contains(s, "Job.Env"):
-				label = "job-env"
+				return "job-env"
+			}
+			if prm, ok := src.(*ssa.Parameter); ok && depth > 0 {
+				idx := paramIndexOf(prm.Parent(), prm)
+				for _, cs := range p.CallSitesOf(prm.Parent()) {
+					if cs.Common().IsInvoke() {
+						continue
+					}
+					if idx >= 0 && idx < len(cs.Common().Args) {
+						if l := labelOf(cs.Common().Args[idx], depth-1); l != "" {
+							if label != "" && label != l {
+								return "?mixed"
+							}
+							label = l
+						}
+					}
+				}
 			}
 		}
-		layers = append(layers, layer{in, label})
+		return label
 	}
-	var proc, job *an.Loop
-	for _, l := range layers {
+	var layers []layer
+	for fn := range reach {
+		if fn.Blocks == nil {
+			continue
+		}
+		an.EachInstr(fn, func(in ssa.Instruction) {
+			mu, ok := in.(*ssa.MapUpdate)
+			if !ok || mapOf(mu.Map) != mm {
+				return
+			}
+			var inl *an.Loop
+			for _, l := range an.Loops(fn) {
+				if l.Blocks[mu.Block()] && (inl == nil || len(l.Blocks) < len(inl.Blocks)) {
+					inl = l
+				}
+			}
+			if inl == nil {
+				layers = append(layers, layer{fn, nil, mu, "direct:" + an.Prov(mu.Key)})
+				return
+			}
+			label := labelOf(inl.RangeOperand(), 3)
+			if label == "" {
+				label = "?" + an.Prov(inl.RangeOperand())
+			}
+			layers = append(layers, layer{fn, inl, mu, label})
+		})
+	}
+	var proc, job *layer
+	for i := range layers {
+		l := &layers[i]
 		switch l.label {
 		case "process-env":
-			proc = l.loop
+			if proc != nil && proc.loop != l.loop {
+				c.Bad(rule1, an.Short(ex)+":env-map:layer", site.Pos(), "the process environment is written into the map in more than one place")
+			}
+			proc = l
 		case "job-env":
-			job = l.loop
+			if job != nil && job.loop != l.loop {
+				c.Bad(rule1, an.Short(ex)+":env-map:layer", site.Pos(), "the job's env is written into the map in more than one place")
+			}
+			job = l
 		default:
 			c.Bad(rule1, an.Short(ex)+":env-map:layer", site.Pos(), "the environment map has a layer of unknown provenance: %s", l.label)
 		}
@@ -466,7 +528,63 @@ func executeEnv(c *an.Ctx, rule1, rule2 string) {
 		c.Bad(rule1, an.Short(ex)+":env-map", site.Pos(), "the environment map is not filled from the process environment and then the job's env (process=%v job=%v)", proc != nil, job != nil)
 		return
 	}
-	after := an.CanReach(proc.NormalExit(), job.Header) && !an.CanReach(job.NormalExit(), proc.Header)
+	// bring both layers into one function: descend from Execute while both lie under the same call
+	anchorIn := func(f *ssa.Function, l *layer) (anchor, bool) {
+		if l.fn == f {
+			return anchor{entry: l.loop.Header, exit: l.loop.NormalExit()}, true
+		}
+		var out anchor
+		n := 0
+		an.EachInstr(f, func(in ssa.Instruction) {
+			call, ok := in.(*ssa.Call)
+			if !ok {
+				return
+			}
+			for _, callee := range p.Callees(&call.Call) {
+				if an.Outer(callee).Pkg != ex.Pkg {
+					continue
+				}
+				sub := p.Reach([]*ssa.Function{callee}, func(e an.CallEdge) bool { return e.Kind != an.EdgeGo && an.Outer(e.Callee).Pkg == ex.Pkg })
+				if _, has := sub[l.fn]; has {
+					idx := 0
+					for i, x := range call.Block().Instrs {
+						if x == ssa.Instruction(call) {
+							idx = i
+						}
+					}
+					out = anchor{entry: call.Block(), exit: call.Block(), idx: idx, call: call}
+					n++
+				}
+			}
+		})
+		return out, n == 1
+	}
+	f := ex
+	var pa, ja anchor
+	for depth := 0; ; depth++ {
+		var ok1, ok2 bool
+		pa, ok1 = anchorIn(f, proc)
+		ja, ok2 = anchorIn(f, job)
+		if !ok1 || !ok2 || depth > 6 {
+			c.Und(rule1, an.Short(ex)+":env-map:order", site.Pos(), "the places where the process environment and the job's env are written could not be brought into one function (under %s)", an.Short(f))
+			return
+		}
+		if pa.call != nil && pa.call == ja.call {
+			f = pa.call.Call.StaticCallee()
+			if f == nil {
+				c.Und(rule1, an.Short(ex)+":env-map:order", site.Pos(), "both layers are written under one dynamic call")
+				return
+			}
+			continue
+		}
+		break
+	}
+	var after bool
+	if pa.entry == ja.entry && pa.call != nil && ja.call != nil {
+		after = pa.idx < ja.idx && !an.InLoop(pa.entry)
+	} else {
+		after = pa.exit != nil && an.CanReach(pa.exit, ja.entry) && !an.CanReach(ja.exit, pa.entry)
+	}
 	c.Check(after, rule1, an.Short(ex)+":env-map:order", site.Pos(), "job env is written over the process env", "the process environment is written after the job's env: the parent process would win")
 	// the process layer is os.Environ(), assigned in the constructor
 	found := false
@@ -638,6 +756,10 @@ func dirTables(c *an.Ctx, r *runnerRoles, cc *ssa.Function, rule string) {
 			if want == "" {
 				want = "empty"
 			}
+			// a source that is empty in this row is the empty string
+			if (chosen == "ctx" && !row.ctx) || (chosen == "dir" && !row.dirSet) {
+				chosen = "empty"
+			}
 			if chosen != want {
 				bad = fmt.Sprintf("job dir comes from %q, want %q", chosen, want)
 			}
@@ -690,13 +812,29 @@ func dirTables(c *an.Ctx, r *runnerRoles, cc *ssa.Function, rule string) {
 		c.Check(okInterp, rule, an.Short(ex)+":interp.Dir", ex.Pos(), "the interpreter runs in the job's dir", "the interpreter's Dir is not set from the job's dir")
 	}
 	// buildContext: empty dir → MustGetwd
-	if bc := p.Func("internal/config", "", "buildContext"); bc != nil {
-		good := false
-		for _, ci := range an.CallsIn(bc, "pkg/runner.NewExecutionContext") {
-			for _, src := range an.Sources(ci.Common().Args[1]) {
-				if call, ok := src.(*ssa.Call); ok && an.ShortCallee(&call.Call) == "pkg/utils.MustGetwd" {
-					good = true
+	var bc *ssa.Function
+	var ctxCalls []ssa.CallInstruction
+	for _, f := range p.Funcs {
+		if f.Pkg != nil && strings.HasSuffix(f.Pkg.Pkg.Path(), "internal/config") {
+			for _, ci := range an.CallsIn(f, "pkg/runner.NewExecutionContext") {
+				ctxCalls = append(ctxCalls, ci)
+				if bc == nil {
+					bc = an.Outer(f)
 				}
+			}
+		}
+	}
+	if bc != nil {
+		good := true
+		for _, ci := range ctxCalls {
+			has := false
+			for _, src := range p.DeepSources(ci.Common().Args[1], 3, false) {
+				if call, ok := src.(*ssa.Call); ok && an.ShortCallee(&call.Call) == "pkg/utils.MustGetwd" {
+					has = true
+				}
+			}
+			if !has {
+				good = false
 			}
 		}
 		c.Check(good, rule, an.Short(bc)+":dir-default", bc.Pos(), "a context without dir defaults to the invocation directory", "buildContext does not default an empty dir to the invocation directory")
